@@ -49,7 +49,7 @@ static void run(vh::Rng & r, int type, vh::Out & out)
     IV a{-nrm[1], nrm[0], 0}, b{0, -nrm[2], nrm[1]}, c{-nrm[2], 0, nrm[0]};
     for (auto & d : {a, b, c}) {if (d[0] || d[1] || d[2]) {dirs.push_back(d);}}
   }
-  long long off = (r.coin() ? 1 : -1) * r.range(1, 30);
+  long long off = (r.coin() ? 1 : -1) * (r.coin(1, 3) ? r.range(60, 60 + 1940 / den) : r.range(1, 30));      // near and far from the sensor origin
   IV p0; for (size_t a = 0; a < DIM; ++a) {p0.push_back(nrm[a] * off);}          // nrm . p0 = off * den^2
   long long c = off * den * den;
   int n = (int)r.range(12, r.coin(1, 5) ? 400 : 60);
@@ -88,6 +88,59 @@ static void run(vh::Rng & r, int type, vh::Out & out)
   estimate(ps2, outs2, exact2, curv02);
   for (size_t i = 0; i < pts2.size(); ++i) {gap2.push_back(wellConditioned<DIM>(pts2, i, k) && exact2[i] && exact[i]);}
   out.put(vh::Ev("equiv").mat("Q", Q).mat("outs", outs).mat("outs2", outs2).raw("gap", bools(gap)).raw("gap2", bools(gap2)));
+  // histories: ONE estimator (k = 8) and ONE point-set buffer per point type, refilled in place frame after frame with
+  // two-patch clouds (two surfaces far apart, so that every true neighbourhood lies within one patch)
+  {
+    static NormalAndCurvatureEstimation<PT> est8(8);
+    static PointSet<PT> buf;
+    const int m = 160;
+    if (buf.size() != (size_t)m) {buf.resize(m);}
+    const auto & NS = DIM == 2 ? N2 : N3;
+    for (int frame = 0; frame < 2; ++frame) {
+      IV s1 = r.pick(NS), s2 = r.pick(NS);
+      IV n1(s1.begin(), s1.begin() + DIM), n2(s2.begin(), s2.begin() + DIM);
+      long long d1 = s1[DIM], d2 = s2[DIM];
+      // bring both normals to the common denominator d1 * d2
+      IV m1, m2; for (size_t a = 0; a < DIM; ++a) {m1.push_back(n1[a] * d2); m2.push_back(n2[a] * d1);}
+      long long dd = d1 * d2;
+      long long o1 = r.range(2, 9), o2 = -r.range(400, 900) / (long long)std::max(d1, d2);
+      auto surfacePts = [&](const IV & nn, long long dn, long long off0, int count, std::vector<IV> & outp) {
+          std::vector<IV> dv;
+          if (DIM == 2) {dv.push_back(IV{-nn[1], nn[0]});} else {
+            IV a{-nn[1], nn[0], 0}, b{0, -nn[2], nn[1]}, c{-nn[2], 0, nn[0]};
+            for (auto & d : {a, b, c}) {if (d[0] || d[1] || d[2]) {dv.push_back(d);}}
+          }
+          for (int i = 0; i < count; ++i) {
+            IV p; for (size_t a = 0; a < DIM; ++a) {p.push_back(nn[a] * off0);}
+            for (auto & d : dv) {long long q = r.range(-6, 6); for (size_t a = 0; a < DIM; ++a) {p[a] += q * d[a];}}
+            (void)dn;
+            outp.push_back(p);
+          }
+        };
+      std::vector<IV> fp; surfacePts(n1, d1, o1, m / 2, fp); surfacePts(n2, d2, o2, m / 2, fp);
+      for (int i = 0; i < m; ++i) {buf[i] = mk<PT, DIM>(fp[i]);}                       // refilled in place, same size
+      NormalSet<PT> normals(m); std::vector<S> curv(m);
+      est8.compute(buf, normals, curv);                                                   // the overload that builds its own kd-tree
+      std::vector<IV> outs2; std::vector<int> ex2, cz2, gp2; IV patch;
+      for (int i = 0; i < m; ++i) {
+        IV o; bool ok = true;
+        for (size_t a = 0; a < DIM; ++a) {double x = (double)normals[i][a] * dd, rx = std::nearbyint(x); if (!(std::fabs(x - rx) <= tol * dd)) {ok = false;} o.push_back((long long)rx);}
+        outs2.push_back(o); ex2.push_back(ok); cz2.push_back(std::fabs((double)curv[i]) <= (sizeof(S) == 4 ? 1e-4 : 1e-9));
+        patch.push_back(i < m / 2 ? 1 : 2);
+        // well conditioned: the points strictly closer than the 8th neighbour span the surface AND all points up to that distance are of the same patch
+        bool g = wellConditioned<DIM>(fp, (size_t)i, 8);
+        if (g) {
+          std::vector<long long> dist; for (auto & q : fp) {long long t2 = 0; for (size_t a = 0; a < DIM; ++a) {t2 += (q[a] - fp[i][a]) * (q[a] - fp[i][a]);} dist.push_back(t2);}
+          std::vector<long long> sd = dist; std::sort(sd.begin(), sd.end());
+          for (int j = 0; j < m; ++j) {if (dist[j] <= sd[7] && (j < m / 2) != (i < m / 2)) {g = false;}}
+        }
+        gp2.push_back(g);
+      }
+      long long c1 = 0, c2 = 0; for (size_t a = 0; a < DIM; ++a) {c1 += m1[a] * fp[0][a]; c2 += m2[a] * fp[m / 2][a];}
+      out.put(vh::Ev("patches").i("dim", DIM).i("type", type).i("frame", frame).vec("nrm1", m1).vec("nrm2", m2).i("den", dd).i("c1", c1).i("c2", c2)
+        .mat("pts", fp).vec("patch", patch).mat("outs", outs2).raw("gap", bools(gp2)).raw("exact", bools(ex2)).raw("curv0", bools(cz2)));
+    }
+  }
   // a non-planar cloud: range invariants only
   PointSet<PT> cloud; for (int i = 0; i < n; ++i) {IV p; for (size_t a = 0; a < DIM; ++a) {p.push_back(r.range(-50, 50) + (a == 0 ? 200 : 0));} cloud.push_back(mk<PT, DIM>(p));}
   NormalSet<PT> normals(cloud.size()); std::vector<S> curv(cloud.size());
